@@ -15,8 +15,9 @@ Ev == H[l]
 Loaded == i <= Len(Trace)
 More == Loaded /\ l <= Len(H)
 CfgOf(c) == [W |-> c.W, S |-> c.S, per |-> c.per, rounds |-> c.rounds, gated |-> FALSE,
-             qcap |-> IF "qcap" \in DOMAIN c THEN c.qcap ELSE -1, early |-> "early" \in DOMAIN c /\ c.early]
-Empty == [W |-> 1, S |-> 1, per |-> 0, rounds |-> 1, gated |-> FALSE, qcap |-> -1, early |-> FALSE]
+             qcap |-> IF "qcap" \in DOMAIN c THEN c.qcap ELSE -1, early |-> "early" \in DOMAIN c /\ c.early,
+             selfwait |-> "selfwait" \in DOMAIN c /\ c.selfwait]
+Empty == [W |-> 1, S |-> 1, per |-> 0, rounds |-> 1, gated |-> FALSE, qcap |-> -1, early |-> FALSE, selfwait |-> FALSE]
 TInit == /\ i = 1 /\ l = 1 /\ IF Len(Trace) >= 1 THEN InitWith(CfgOf(Trace[1].cfg)) ELSE InitWith(Empty)
 Matches1 == h' = Append(h, Ev)
 Observable ==
@@ -25,8 +26,8 @@ Observable ==
      \/ Ev.ev = "submitret" /\ (\E s \in Subs : SubmitReturn(s)) /\ Matches1 /\ l' = l + 1
      \/ Ev.ev = "taskstart" /\ (\E w \in Workers : TaskStart(w)) /\ Matches1 /\ l' = l + 1
      \/ Ev.ev = "taskend"   /\ (\E w \in Workers : TaskEnd(w)) /\ Matches1 /\ l' = l + 1
-     \/ Ev.ev = "waitcall"  /\ WaitCall /\ Matches1 /\ l' = l + 1
-     \/ Ev.ev = "waitret"   /\ WaitRet /\ Matches1 /\ l' = l + 1
+     \/ Ev.ev = "waitcall"  /\ (WaitCall \/ \E s \in Subs : WaitCallS(s)) /\ Matches1 /\ l' = l + 1
+     \/ Ev.ev = "waitret"   /\ (WaitRet \/ \E s \in Subs : WaitRetS(s)) /\ Matches1 /\ l' = l + 1
      \/ Ev.ev = "closecall" /\ Close /\ l + 1 <= Len(H) /\ h' = h \o <<H[l], H[l + 1]>> /\ l' = l + 2
      \/ Ev.ev = "closecall" /\ CloseEarlyCall /\ Matches1 /\ l' = l + 1
      \/ Ev.ev = "closeret"  /\ CloseEarlyRet /\ Matches1 /\ l' = l + 1
